@@ -1,7 +1,7 @@
 (* C10 - squash keeps exactly the requested bundles, intact.
    Statements only; proofs are in Proofs/RepoProofs.v. *)
 From Coq Require Import List String NArith Bool.
-From DM Require Import Base.Str Gen.Paths Model.Meta Model.RepoOps Proofs.RepoProofs.
+From DM Require Import Base.Str Gen.Paths Model.Meta Model.RepoOps Proofs.RepoProofs Proofs.SquashProofs.
 Import ListNotations.
 Open Scope list_scope.
 
@@ -25,3 +25,69 @@ Theorem C10_delete_bundle_frame : forall r id m k, under_bundle r id k = false -
   mget k (delete_bundle_quiet r id m) = mget k m.
 Proof. exact delete_bundle_frame. Qed.
 Print Assumptions C10_delete_bundle_frame.
+
+(* the bundles a squash removes are exactly the committed ones that are neither among the n most recent
+   nor carry a retained label *)
+Theorem C10_victims_exact : forall (bs labelled : list string) n id, NoDup bs ->
+  (In id (squash_victims bs labelled n) <->
+   In id bs /\ ~ In id (skipn (List.length bs - n) bs) /\ existsb (String.eqb id) labelled = false).
+Proof. exact victims_exact. Qed.
+Print Assumptions C10_victims_exact.
+
+(* when there is something to remove (more than n committed bundles): every victim's descriptor is gone ... *)
+Theorem C10_victims_gone : forall r n mode sv w,
+  repo_exists r w = true -> (if Nat.eqb n 0 then 1 else n) < List.length (bundles_of r w) ->
+  (forall id, In id (bundles_of r w) -> noslash id = true) ->
+  forall id,
+  In id (squash_victims (bundles_of r w)
+           (match mode with
+            | TNone => []
+            | TAll => map snd (labels_of r EmptyString w)
+            | TSemver => map snd (filter (fun l => existsb (String.eqb (fst l)) sv) (labels_of r EmptyString w))
+            end) (if Nat.eqb n 0 then 1 else n)) ->
+  mget (GetArchivePathToBundle r id) (w_meta (snd (squash r n mode sv w))) = None.
+Proof. exact squash_victims_gone. Qed.
+Print Assumptions C10_victims_gone.
+
+(* ... and every other bundle keeps its descriptor and all of its file lists, byte for byte *)
+Theorem C10_kept_intact : forall r n mode sv w,
+  repo_exists r w = true -> (if Nat.eqb n 0 then 1 else n) < List.length (bundles_of r w) ->
+  (forall id, In id (bundles_of r w) -> noslash id = true) ->
+  forall id k, noslash id = true ->
+  ~ In id (squash_victims (bundles_of r w)
+             (match mode with
+              | TNone => []
+              | TAll => map snd (labels_of r EmptyString w)
+              | TSemver => map snd (filter (fun l => existsb (String.eqb (fst l)) sv) (labels_of r EmptyString w))
+              end) (if Nat.eqb n 0 then 1 else n)) ->
+  under_bundle r id k = true ->
+  mget k (w_meta (snd (squash r n mode sv w))) = mget k (w_meta w).
+Proof. exact squash_kept_intact. Qed.
+Print Assumptions C10_kept_intact.
+
+(* labels: nothing outside the repository's labels changes; a label whose bundle is still there is
+   untouched; a label whose bundle is gone is removed *)
+Theorem C10_labels_frame : forall r n mode sv w k,
+  (forall nm, k <> GetArchivePathToLabel r nm) ->
+  mget k (w_vmeta (snd (squash r n mode sv w))) = mget k (w_vmeta w).
+Proof. exact squash_vmeta_frame. Qed.
+Print Assumptions C10_labels_frame.
+
+Theorem C10_label_kept : forall r n mode sv w nm,
+  noslash r = true -> noslash nm = true ->
+  let w1 := with_meta w (w_meta (snd (squash r n mode sv w))) in
+  let kept := bundles_of r w1 in
+  let ls := labels_of r EmptyString w1 in
+  (forall l, In l ls -> noslash (fst l) = true) ->
+  (forall l, In l ls -> fst l = nm -> existsb (String.eqb (snd l)) kept = true) ->
+  mget (GetArchivePathToLabel r nm) (w_vmeta (snd (squash r n mode sv w))) = mget (GetArchivePathToLabel r nm) (w_vmeta w).
+Proof. exact squash_label_kept. Qed.
+Print Assumptions C10_label_kept.
+
+Theorem C10_label_removed : forall r n mode sv w l,
+  repo_exists r w = true -> (if Nat.eqb n 0 then 1 else n) < List.length (bundles_of r w) ->
+  let w1 := with_meta w (w_meta (snd (squash r n mode sv w))) in
+  In l (labels_of r EmptyString w1) -> existsb (String.eqb (snd l)) (bundles_of r w1) = false ->
+  mget (GetArchivePathToLabel r (fst l)) (w_vmeta (snd (squash r n mode sv w))) = None.
+Proof. exact squash_label_removed. Qed.
+Print Assumptions C10_label_removed.
